@@ -75,6 +75,27 @@ func init() {
 			Outside: []string{"RSA mathematics: primitives are contracts (Go's documented length limits, decrypt(encrypt(p)) = p for the matching key, ideal unforgeability, collision-resistant digest)", "longer plaintexts"},
 			Stubs:   []string{"rsa.EncryptOAEP/DecryptOAEP/EncryptPKCS1v15/DecryptPKCS1v15/SignPKCS1v15/VerifyPKCS1v15/SignPSS/VerifyPSS: contract stubs; (*rsa.PublicKey).Size: the size given to vfRSAKey"},
 		},
+		&Spec{
+			ID: "C16", Title: "Security token renewal keeps the channel usable (timing kernel)",
+			Quick:    Tier{Groups: G("uasc", "^VerifH_C16_"), Budget: 200 * time.Second, Solver: "cvc5", TimeoutMs: 120000},
+			Thorough: Tier{Groups: G("uasc", "^VerifH_C16_"), Budget: 20 * time.Minute, Solver: "cvc5", TimeoutMs: 600000},
+			Reach:    []string{"VerifH_C16_RenewalDelay:scheduled", "VerifH_C16_ExpiryDelay:scheduled"},
+			Bounds: []string{"revised lifetime and client-requested lifetime: every uint32 number of milliseconds >= 1 (two symbolic variables)",
+				"the real handleOpenSecureChannelResponse, scheduleRenewal and scheduleExpiration run up to their timers; timer durations and the clock are observed",
+				"oracle: lifetime/2 <= renewal delay < lifetime; lifetime <= drop instant - createdAt <= 1.25*lifetime + 1ms"},
+			Outside: []string{"requests issued concurrently with a renewal, server-initiated traffic during renewal (schedules): not encoded", "exactly-once renewal per token under concurrency", "lifetime 0"},
+			Stubs:   []string{"time.Now: arbitrary non-decreasing instants; time.NewTimer: records its duration; crypto not involved (policy None)"},
+		},
+		&Spec{
+			ID: "C17", Title: "Chunks secured with an expired token are rejected",
+			Quick:    Tier{Groups: G("uasc", "^VerifH_C17_"), Budget: 150 * time.Second, Solver: "cvc5"},
+			Thorough: Tier{Groups: G("uasc", "^VerifH_C17_"), Budget: 10 * time.Minute, Solver: "cvc5"},
+			Reach:    []string{"VerifH_C17_Expiry:expired"},
+			Bounds: []string{"one channel with two tokens; channel id, both token ids (distinct) and the token lifetime symbolic; modes Sign and SignAndEncrypt (Basic256Sha256)",
+				"one expiry step of the real scheduleExpiration (timer fires), real Receive/verifyAndDecrypt before and after; chunks produced by the real send path under the old and the new token"},
+			Outside: []string{"more than two tokens; the time at which the timer fires (C16); other policies (the token bookkeeping does not depend on the policy)"},
+			Stubs:   []string{"HMAC ideal (a tag verifies only if a key holder issued it for the same input) and collision resistant (different nonces give different keys); AES-CBC inverse pair"},
+		},
 	)
 }
 
